@@ -255,6 +255,6 @@ def gen_lines(n_replay, n_round, seed):
     per2 = max(1, n_round // 16)
     for i in range(0, n_round, per2):
         jobs.append(("roundtrip", seed * 104729 + i, n_replay + i, min(per2, n_round - i)))
-    with mp.get_context("fork").Pool(common.NCPU) as pool:
+    with common.pool(common.NCPU) as pool:
         out = pool.map(_chunk, jobs)
     return [x for ch in out for x in ch]
